@@ -1,12 +1,10 @@
 """One simulated run = fault-free pass (strict oracle) + optional fault pass."""
 import collections
 import copy
-import json
 
-from .core import HarnessError, unhex
+from .core import unhex
 from .execute import Executor
 from .oracles import check_c07, check_c08
-from .world import STAGES
 
 ORACLES = {"C07": check_c07, "C08": check_c08}
 
